@@ -1,6 +1,8 @@
 package main
 
 import (
+	"os"
+
 	"golang.org/x/tools/go/ssa"
 )
 
@@ -87,7 +89,7 @@ func deepLockAt(root *ssa.Function, in ssa.Instruction) LockSet {
 func deepLockAtDepth(root *ssa.Function, in ssa.Instruction, depth int) LockSet {
 	fn := in.Parent()
 	if fn == root {
-		return lockFlow(root, LockSet{}).at[in]
+		return lockFlowRaw(root, LockSet{}).at[in]
 	}
 	if depth > searchDepth {
 		return LockSet{}
@@ -106,7 +108,7 @@ func deepLockAtDepth(root *ssa.Function, in ssa.Instruction, depth int) LockSet 
 		if ctx == nil {
 			ctx = LockSet{}
 		}
-		ls := lockFlow(fn, ctx).at[in]
+		ls := lockFlowRaw(fn, ctx).at[in]
 		if ls == nil {
 			ls = LockSet{}
 		}
@@ -189,6 +191,56 @@ func flagEdgesDepth(fn *ssa.Function, fields []string, want bool, depth int) []E
 		ok := isField(cond)
 		if !ok && depth < searchDepth {
 			ok = helperFlag(cond, fields, want, depth, isField)
+		}
+		if !ok && depth < searchDepth {
+			// a local flag merged from the field's value and constants (result variable of an inlined helper)
+			if phi, isPhi := stripConv(cond).(*ssa.Phi); isPhi {
+				ok = true
+				var ev edgeSet
+				type leaf struct {
+					v    ssa.Value
+					pred *ssa.BasicBlock
+				}
+				var leaves []leaf
+				seen := map[*ssa.Phi]bool{}
+				var flat func(p *ssa.Phi)
+				flat = func(p *ssa.Phi) {
+					if seen[p] {
+						return
+					}
+					seen[p] = true
+					for i, ed := range p.Edges {
+						if q, isQ := stripConv(ed).(*ssa.Phi); isQ {
+							flat(q)
+							continue
+						}
+						leaves = append(leaves, leaf{stripConv(ed), p.Block().Preds[i]})
+					}
+				}
+				flat(phi)
+				for _, lf := range leaves {
+					if isField(lf.v) {
+						continue
+					}
+					b, isC := boolConst(lf.v)
+					if !isC {
+						ok = false
+						break
+					}
+					if b != want {
+						continue
+					}
+					// the zero value of a result variable that is overwritten on every path never arrives; a
+					// constant equal to `want` must come from a block behind the evidence
+					if ev == nil {
+						ev = mkEdgeSet(flagEdgesDepth(fn, fields, want, depth+1))
+					}
+					if g, _ := guarded(fn, lastInstr(lf.pred), ev, nil); !g || len(ev) == 0 {
+						ok = false
+						break
+					}
+				}
+			}
 		}
 		if !ok {
 			return false, false
@@ -320,5 +372,66 @@ func callsReaching(fn *ssa.Function, names ...string) []ssa.CallInstruction {
 			out = append(out, c)
 		}
 	}
+	return out
+}
+
+// anchorFuncs: functions the rule tables name directly (tool/roles.json); they
+// are analysed in their own right and never absorbed into a caller's scope.
+var anchorFuncs = map[*ssa.Function]bool{}
+
+var scopeCache = map[*ssa.Function][]*ssa.Function{}
+
+// scopeDisabled switches private-helper absorption off (STHLINT_NOSCOPE=1, for
+// comparing results).
+var scopeDisabled = os.Getenv("STHLINT_NOSCOPE") == "1"
+
+// scopeOf returns fn followed by its private helpers: unexported, named
+// functions of the same package that are not anchors themselves, are never
+// used as values, and whose every static caller is fn or another member of the
+// scope (depth <= searchDepth). Such a helper can only run as part of fn.
+func scopeOf(fn *ssa.Function) []*ssa.Function {
+	if fn == nil {
+		return nil
+	}
+	if s, ok := scopeCache[fn]; ok {
+		return s
+	}
+	out := []*ssa.Function{fn}
+	if scopeDisabled {
+		scopeCache[fn] = out
+		return out
+	}
+	in := map[*ssa.Function]bool{fn: true}
+	pkg := pkgOfFunc(fn)
+	for round := 0; round < searchDepth; round++ {
+		added := false
+		for _, f := range append([]*ssa.Function{}, out...) {
+			eachInstr(f, func(instr ssa.Instruction) {
+				c, ok := instr.(*ssa.Call)
+				if !ok {
+					return
+				}
+				g := c.Call.StaticCallee()
+				if g == nil || g.Blocks == nil || in[g] || g.Parent() != nil || pkgOfFunc(g) != pkg || anchorFuncs[g] || usedAsValue[g] {
+					return
+				}
+				if obj := g.Object(); obj == nil || obj.Exported() {
+					return
+				}
+				for _, c2 := range staticCallers[g] {
+					if !in[c2.Parent()] {
+						return
+					}
+				}
+				in[g] = true
+				out = append(out, g)
+				added = true
+			})
+		}
+		if !added {
+			break
+		}
+	}
+	scopeCache[fn] = out
 	return out
 }
